@@ -76,9 +76,14 @@ def content_strategy(what):
     if what in ('string', 'textfile'):
         return st.one_of(
             st.integers(0, len(TEXTS) - 1).map(lambda i: ['t', i]),
-            T.a_text(0, 12).map(lambda s: ['s', s.replace('\x00', '')]))
+            T.a_text(0, 12).map(lambda s: ['s', s.replace('\x00', '')]),
+            # different contents of one size
+            st.text(alphabet='ab', min_size=5, max_size=5).map(
+                lambda s: ['s', s + '\n']))
     if what == 'binary':
-        return st.binary(max_size=24).map(lambda b: ['b', b.hex()])
+        return st.one_of(st.binary(max_size=24),
+                         st.binary(min_size=4, max_size=4)).map(
+            lambda b: ['b', b.hex()])
     return st.integers(0, len(FRAMES) - 1).map(lambda i: ['f', i])
 
 
@@ -142,6 +147,25 @@ def step(draw):
 
 
 @st.composite
+def kind_words(draw, kinds):
+    """The words after -w / --write naming exactly these kinds: separate,
+    comma-joined, or the way a list gets typed ("table, graph", a trailing
+    or leading comma) - an empty item names no kind."""
+    how = draw(st.sampled_from(['separate', 'separate', 'joined', 'joined',
+                                'trailing-comma', 'typed-list',
+                                'leading-comma']))
+    if how == 'joined' and len(kinds) > 1:
+        return [','.join(kinds)]
+    if how == 'trailing-comma':
+        return [','.join(kinds) + ',']
+    if how == 'typed-list':
+        return [k + ',' for k in kinds[:-1]] + [kinds[-1]]
+    if how == 'leading-comma':
+        return [',' + kinds[0]] + list(kinds[1:])
+    return list(kinds)
+
+
+@st.composite
 def enable_step(draw, kinds):
     """One way of switching regeneration on for the given kinds ([] = all)."""
     how = draw(st.sampled_from(['set', 'argv', 'argv', 'pytest']))
@@ -164,17 +188,14 @@ def enable_step(draw, kinds):
                     + [form]
         else:
             w = draw(st.sampled_from(['-w', '--w', '--write']))
-            joined = draw(st.booleans())
-            ks = [','.join(kinds)] if joined and len(kinds) > 1 else \
-                list(kinds)
+            ks = draw(kind_words(kinds))
             toks = prefix + [w] + ks
         return [{'op': 'argv', 'tokens': toks}]
     if not kinds:
         toks = draw(st.sampled_from([['--write-all'],
                                      ['--wquiet', '--write-all']]))
     else:
-        joined = draw(st.booleans())
-        ks = [','.join(kinds)] if joined and len(kinds) > 1 else list(kinds)
+        ks = draw(kind_words(kinds))
         toks = ['--write'] + ks
     return [{'op': 'pytest', 'tokens': toks}]
 
@@ -239,8 +260,8 @@ def valid(case):
                           '--W', '--write-all', '-w', '--w', '--write',
                           '-1W', '-W1', '-vW', '-0W', '-wquiet', '--wquiet'])
                 for t in s['tokens']:
-                    if t not in vocab and not (t and all(
-                            k in ('table', 'graph', 'csv', 'zzz')
+                    if t not in vocab and not (t.strip(',') and all(
+                            k in ('table', 'graph', 'csv', 'zzz', '')
                             for k in t.split(','))):
                         return False
                 if op == 'argv':
@@ -380,6 +401,18 @@ EXT = {'string': 'txt', 'textfile': 'txt', 'binary': 'bin',
        'frame': 'parquet'}
 
 
+PINNED = [None]
+
+
+def pin_mtime(path):
+    """In half of the cases every result file and every reference carries
+    one fixed modification time (as after `cp -p`, `rsync -t`, extraction
+    from an archive, or a build that normalises time stamps): what a file
+    holds is then not visible from its size and time stamp."""
+    if PINNED[0] and os.path.exists(path):
+        os.utime(path, (1600000000, 1600000000))
+
+
 def do_assert(rt, what, value, ref_path, kind, actdir, n, strip=None):
     """Perform the assertion; returns (ok, raised)."""
     kw = {}
@@ -392,17 +425,24 @@ def do_assert(rt, what, value, ref_path, kind, actdir, n, strip=None):
         ap = os.path.join(actdir, 'actual%d.txt' % n)
         with open(ap, 'w', encoding='utf-8', newline='') as f:
             f.write(value)
+        pin_mtime(ap)
         return quiet(rt.assertTextFileCorrect, ap, ref_path, kind=kind,
                      **kw)
     if what == 'binary':
         ap = os.path.join(actdir, 'actual%d.bin' % n)
         with open(ap, 'wb') as f:
             f.write(value)
+        pin_mtime(ap)
         return quiet(rt.assertBinaryFileCorrect, ap, ref_path, kind=kind)
     return quiet(rt.assertDataFrameCorrect, value, ref_path, kind=kind)
 
 
 def run(case, ctx):
+    PINNED[0] = len(case['steps']) % 2 == 0
+    return run_case(case, ctx)
+
+
+def run_case(case, ctx):
     from tdda.referencetest.referencetest import ReferenceTest
     from tdda.referencetest import referencetestcase as rtc
     from tdda.referencetest import referencepytest as rpt
@@ -499,6 +539,8 @@ def run(case, ctx):
         rt.pandas.tmp_dir = tmpdir
         rt.files.verbose = rt.pandas.verbose = False
         ok, r = do_assert(rt, what, value, ref_path, kind, actdir, n, strip)
+        if selected:
+            pin_mtime(ref_path)
         after = snapshot(refdir)
         out.label('%s:%s:%s' % (what, 'regen' if selected else 'normal',
                                 'kind=%s' % kind))
